@@ -3,8 +3,12 @@
 //! `Type::method(variant)`; the part before `(` is matched against the source
 //! scan to list public `-> Result` functions that are NOT catalogued.
 
-use super::chk::Chk;
-use super::pools::{self, head, p, pd, pick, Disamb, Dur, Pools, Rel, P, RO, SL};
+use super::chk::{self, anynum, num, sdur_from_ns, sdur_ns, Chk, Num, Pinned, Trans, F, NS, SPAN_LIMITS};
+use super::pools::{self, head, p, pd, pick, Disamb, Dur, Pools, Rel, P, RO, SL, WEEKDAYS};
+use jiff::tz::TimeZone;
+use jiff::{ToSpan, Unit};
+use std::sync::atomic::{AtomicU64, Ordering};
+use std::time::{Duration as UDur, SystemTime};
 use super::{run, Entry};
 use jiff::civil::{
     Date, DateDifference, DateTime, DateTimeDifference, DateTimeRound, ISOWeekDate, Time, TimeDifference, TimeRound, Weekday,
@@ -313,8 +317,14 @@ pub fn build(quick: bool) -> Cat {
     add2(c, "Timestamp::to_zoned", &pl.tss, &pl.zones, |t, tz| ok(t.to_zoned(tz.clone())));
     add2(c, "Timestamp::checked_add", &pl.tss, &pl.durs, |t, x| with_dur!(x, |v| t.checked_add(v)));
     add2(c, "Timestamp::checked_sub", &pl.tss, &pl.durs, |t, x| with_dur!(x, |v| t.checked_sub(v)));
-    add2(c, "Timestamp::saturating_add", &pl.tss, &pl.durs, |t, x| with_dur!(x, |v| t.saturating_add(v)));
-    add2(c, "Timestamp::saturating_sub", &pl.tss, &pl.durs, |t, x| with_dur!(x, |v| t.saturating_sub(v)));
+    // `Result` only because a span with calendar units is an error; otherwise
+    // the documented identity: the checked result, else MIN / MAX
+    add2(c, "Timestamp::saturating_add", &pl.tss, &pl.durs, |t, x| {
+        with_dur!(x, |v| t.saturating_add(v).map(|got| sat_pin(got, t.checked_add(v), dur_neg(x), Timestamp::MIN, Timestamp::MAX)))
+    });
+    add2(c, "Timestamp::saturating_sub", &pl.tss, &pl.durs, |t, x| {
+        with_dur!(x, |v| t.saturating_sub(v).map(|got| sat_pin(got, t.checked_sub(v), !dur_neg(x), Timestamp::MIN, Timestamp::MAX)))
+    });
     diff_entries!(c, "Timestamp", TimestampDifference, &pl.tss, &pl.tss_s, pl);
     add2(c, "Timestamp::round", &pl.tss, &pl.ros, |t, o| t.round(TimestampRound::new().smallest(o.unit).increment(o.inc).mode(o.mode)));
     add2(c, "Timestamp::series", &pl.tss, &pl.spans, |t, s| take1000(t.series(*s)));
@@ -453,8 +463,12 @@ pub fn build(quick: bool) -> Cat {
     add2(c, "Offset::to_datetime", &pl.offsets, &pl.tss, |o, t| ok(o.to_datetime(*t)));
     add2(c, "Offset::checked_add", &pl.offsets, &pl.durs, |o, x| with_dur!(x, |v| o.checked_add(v)));
     add2(c, "Offset::checked_sub", &pl.offsets, &pl.durs, |o, x| with_dur!(x, |v| o.checked_sub(v)));
-    add2(c, "Offset::saturating_add", &pl.offsets, &pl.durs, |o, x| with_dur!(x, |v| ok(o.saturating_add(v))));
-    add2(c, "Offset::saturating_sub", &pl.offsets, &pl.durs, |o, x| with_dur!(x, |v| ok(o.saturating_sub(v))));
+    add2(c, "Offset::saturating_add", &pl.offsets, &pl.durs, |o, x| {
+        with_dur!(x, |v| ok(sat_pin(o.saturating_add(v), o.checked_add(v), dur_neg(x), Offset::MIN, Offset::MAX)))
+    });
+    add2(c, "Offset::saturating_sub", &pl.offsets, &pl.durs, |o, x| {
+        with_dur!(x, |v| ok(sat_pin(o.saturating_sub(v), o.checked_sub(v), !dur_neg(x), Offset::MIN, Offset::MAX)))
+    });
     add2(c, "Offset::until", &pl.offsets, &pl.offsets, |a, b| ok(a.until(*b)));
     add2(c, "Offset::since", &pl.offsets, &pl.offsets, |a, b| ok(a.since(*b)));
     add2(c, "Offset::duration_until", &pl.offsets, &pl.offsets, |a, b| ok(a.duration_until(*b)));
@@ -506,5 +520,867 @@ pub fn build(quick: bool) -> Cat {
     });
 
     let _: Option<(Disamb, Zoned)> = None;
+    extend(&mut cat, &pl, &instants, quick);
     cat
 }
+
+// ===========================================================================
+// Extension: everything public that takes a value which can be out of range or
+// overflow and is NOT documented to panic - infallible conversions and
+// accessors at the type limits, `saturating_*` / `wrapping_*`, the operator
+// impls documented as wrapping (`Time`, `Weekday`) or as "never panics"
+// (`a - b` of two datetimes), `TryFrom` / `From` conversions, iterators.
+// Documented panics are listed by name in `excluded()`.
+// ===========================================================================
+
+/// inputs left out of an entry because the documentation says they panic
+pub static EXCLUDED_DOC_PANIC_INPUTS: AtomicU64 = AtomicU64::new(0);
+/// non-vacuity of the saturating identity: how the expected value was obtained
+pub static SAT_CHECKED_OK: AtomicU64 = AtomicU64::new(0);
+pub static SAT_TO_MIN: AtomicU64 = AtomicU64::new(0);
+pub static SAT_TO_MAX: AtomicU64 = AtomicU64::new(0);
+/// non-vacuity of the weekday oracle: operands whose exact sum / negation leaves i64
+pub static WD_BEYOND_I64: AtomicU64 = AtomicU64::new(0);
+
+fn dur_neg(d: &Dur) -> bool {
+    match d {
+        Dur::Span(s) => chk::span_fields(s).iter().any(|f| *f < 0),
+        Dur::S(x) => x.as_secs() < 0 || x.subsec_nanos() < 0,
+        Dur::U(_) => false,
+    }
+}
+
+/// "identical to `checked_x`, except the result saturates": the checked result
+/// when there is one, otherwise the limit on the side the operand points to
+fn sat_pin<T: Chk, E>(got: T, checked: Result<T, E>, to_min: bool, min: T, max: T) -> Pinned<T> {
+    let want = match checked {
+        Ok(v) => {
+            SAT_CHECKED_OK.fetch_add(1, Ordering::Relaxed);
+            v
+        }
+        Err(_) => {
+            if to_min {
+                SAT_TO_MIN.fetch_add(1, Ordering::Relaxed);
+                min
+            } else {
+                SAT_TO_MAX.fetch_add(1, Ordering::Relaxed);
+                max
+            }
+        }
+    };
+    Pinned { got, want, tag: "not-the-checked-result-nor-the-limit" }
+}
+
+fn wd_index(w: Weekday) -> i128 {
+    WEEKDAYS.iter().position(|x| *x == w).unwrap() as i128
+}
+/// `w + delta` modulo 7 in exact arithmetic; the class of the failure says
+/// whether the true sum / negation leaves `i64`
+fn wd_pin(got: Weekday, w: Weekday, days: i128, negate: bool) -> Pinned<Weekday> {
+    let delta = if negate { -days } else { days };
+    let want = WEEKDAYS[(wd_index(w) + delta).rem_euclid(7) as usize];
+    let fits = |x: i128| x >= i64::MIN as i128 && x <= i64::MAX as i128;
+    let tag = if !fits(delta) {
+        "value:negated-operand-exceeds-i64"
+    } else if !fits(wd_index(w) + delta) {
+        "value:sum-exceeds-i64"
+    } else {
+        "value"
+    };
+    if tag != "value" {
+        WD_BEYOND_I64.fetch_add(1, Ordering::Relaxed);
+    }
+    Pinned { got, want, tag }
+}
+
+macro_rules! weekday_ops {
+    ($cat:expr, $tn:literal, $wd:expr, $pool:expr) => {{
+        add2($cat, concat!("Weekday::add(", $tn, ")"), $wd, $pool, |w, n| ok(wd_pin(*w + *n, *w, *n as i128, false)));
+        add2($cat, concat!("Weekday::sub(", $tn, ")"), $wd, $pool, |w, n| ok(wd_pin(*w - *n, *w, *n as i128, true)));
+        add2($cat, concat!($tn, "::add(Weekday)"), $wd, $pool, |w, n| ok(wd_pin(*n + *w, *w, *n as i128, false)));
+        add2($cat, concat!("Weekday::add_assign(", $tn, ")"), $wd, $pool, |w, n| {
+            let mut x = *w;
+            x += *n;
+            ok(wd_pin(x, *w, *n as i128, false))
+        });
+        add2($cat, concat!("Weekday::sub_assign(", $tn, ")"), $wd, $pool, |w, n| {
+            let mut x = *w;
+            x -= *n;
+            ok(wd_pin(x, *w, *n as i128, true))
+        });
+    }};
+}
+
+/// `saturating_add` / `saturating_sub` of a datetime type against the
+/// documented identity with `checked_add` / `checked_sub`
+macro_rules! sat_entries {
+    ($cat:expr, $ty:literal, $pool:expr, $durs:expr, $min:expr, $max:expr) => {{
+        add2($cat, concat!($ty, "::saturating_add"), $pool, $durs, |a, x| {
+            with_dur!(x, |v| ok(sat_pin(a.saturating_add(v), a.checked_add(v), dur_neg(x), $min(a), $max(a))))
+        });
+        add2($cat, concat!($ty, "::saturating_sub"), $pool, $durs, |a, x| {
+            with_dur!(x, |v| ok(sat_pin(a.saturating_sub(v), a.checked_sub(v), !dur_neg(x), $min(a), $max(a))))
+        });
+    }};
+}
+
+/// the `-` operator of two values of one type ("will never panic or fail in any
+/// way") and the infallible absolute differences
+macro_rules! minus_entries {
+    ($cat:expr, $ty:literal, $pool:expr) => {{
+        add2($cat, concat!($ty, "::sub(", $ty, ")"), $pool, $pool, |a, b| ok(*a - *b));
+        add2($cat, concat!($ty, "::duration_until"), $pool, $pool, |a, b| ok(a.duration_until(*b)));
+        add2($cat, concat!($ty, "::duration_since"), $pool, $pool, |a, b| ok(a.duration_since(*b)));
+    }};
+}
+
+fn take_n<I: Iterator>(it: I, n: usize) -> Vec<I::Item> {
+    it.take(n).collect()
+}
+
+/// a `Zoned` in the *system* time zone: only the instant is rendered (the zone
+/// is a property of the machine), everything is range-checked
+struct SysZoned(Zoned);
+impl Chk for SysZoned {
+    fn show(&self, s: &mut String) {
+        self.0.timestamp().show(s);
+    }
+    fn bad(&self) -> Option<String> {
+        self.0.bad()
+    }
+}
+
+fn unit_index(u: Unit) -> usize {
+    pools::UNITS.iter().position(|x| *x == u).map(|i| 9 - i).unwrap()
+}
+
+fn span_set(s: Span, u: Unit, v: i64) -> Span {
+    match u {
+        Unit::Year => s.years(v),
+        Unit::Month => s.months(v),
+        Unit::Week => s.weeks(v),
+        Unit::Day => s.days(v),
+        Unit::Hour => s.hours(v),
+        Unit::Minute => s.minutes(v),
+        Unit::Second => s.seconds(v),
+        Unit::Millisecond => s.milliseconds(v),
+        Unit::Microsecond => s.microseconds(v),
+        Unit::Nanosecond => s.nanoseconds(v),
+    }
+}
+
+macro_rules! to_span_fn {
+    ($name:ident, $t:ty) => {
+        fn $name(v: $t, u: Unit, singular: bool) -> Span {
+            match (u, singular) {
+                (Unit::Year, false) => v.years(),
+                (Unit::Month, false) => v.months(),
+                (Unit::Week, false) => v.weeks(),
+                (Unit::Day, false) => v.days(),
+                (Unit::Hour, false) => v.hours(),
+                (Unit::Minute, false) => v.minutes(),
+                (Unit::Second, false) => v.seconds(),
+                (Unit::Millisecond, false) => v.milliseconds(),
+                (Unit::Microsecond, false) => v.microseconds(),
+                (Unit::Nanosecond, false) => v.nanoseconds(),
+                (Unit::Year, true) => v.year(),
+                (Unit::Month, true) => v.month(),
+                (Unit::Week, true) => v.week(),
+                (Unit::Day, true) => v.day(),
+                (Unit::Hour, true) => v.hour(),
+                (Unit::Minute, true) => v.minute(),
+                (Unit::Second, true) => v.second(),
+                (Unit::Millisecond, true) => v.millisecond(),
+                (Unit::Microsecond, true) => v.microsecond(),
+                (Unit::Nanosecond, true) => v.nanosecond(),
+            }
+        }
+    };
+}
+to_span_fn!(to_span_i8, i8);
+to_span_fn!(to_span_i16, i16);
+to_span_fn!(to_span_i32, i32);
+to_span_fn!(to_span_i64, i64);
+
+/// (value, unit, singular form) triples whose value is inside the unit's
+/// documented limit; the others (documented panic) are counted
+fn to_span_pool<T: Copy + Into<i64> + std::fmt::Debug>(vals: &P<T>) -> P<(T, Unit, bool)> {
+    let mut v = vec![];
+    for i in 0..vals.len() {
+        let x = *vals.val(i);
+        for u in pools::UNITS {
+            for singular in [false, true] {
+                let n: i64 = x.into();
+                // i64::MIN.abs() would overflow: compare without negating
+                let l = SPAN_LIMITS[unit_index(u)];
+                if n > l || n < -l {
+                    EXCLUDED_DOC_PANIC_INPUTS.fetch_add(1, Ordering::Relaxed);
+                } else {
+                    v.push((x, u, singular));
+                }
+            }
+        }
+    }
+    p(v, |t| format!("{:?}.{}{}()", t.0, format!("{:?}", t.1).to_lowercase(), if t.2 { "" } else { "s" }))
+}
+
+fn ts_fields(t: &Timestamp) -> Vec<Num> {
+    vec![
+        num("as_second", t.as_second(), -377_705_023_201, 253_402_207_200),
+        num("as_millisecond", t.as_millisecond(), -377_705_023_201_000, 253_402_207_200_999),
+        num("as_microsecond", t.as_microsecond(), -377_705_023_201_000_000, 253_402_207_200_999_999),
+        num("as_nanosecond", t.as_nanosecond(), chk::TS_MIN, chk::TS_MAX),
+        num("subsec_millisecond", t.subsec_millisecond(), -999, 999),
+        num("subsec_microsecond", t.subsec_microsecond(), -999_999, 999_999),
+        num("subsec_nanosecond", t.subsec_nanosecond(), -999_999_999, 999_999_999),
+        num("signum", t.signum(), -1, 1),
+        num("is_zero", t.is_zero(), 0, 1),
+    ]
+}
+
+fn date_fields(d: &Date) -> Vec<Num> {
+    let (ey, era) = d.era_year();
+    vec![
+        num("year", d.year(), -9999, 9999),
+        num("era_year", ey, 1, 10_000),
+        num("era_is_ce", matches!(era, jiff::civil::Era::CE), 0, 1),
+        num("month", d.month(), 1, 12),
+        num("day", d.day(), 1, 31),
+        num("weekday", wd_index(d.weekday()), 0, 6),
+        num("day_of_year", d.day_of_year(), 1, 366),
+        num("day_of_year_no_leap", d.day_of_year_no_leap().unwrap_or(0), 0, 365),
+        num("days_in_month", d.days_in_month(), 28, 31),
+        num("days_in_year", d.days_in_year(), 365, 366),
+        num("in_leap_year", d.in_leap_year(), 0, 1),
+    ]
+}
+
+fn sdur_fields(d: &SignedDuration) -> Vec<Num> {
+    vec![
+        anynum("as_secs", d.as_secs()),
+        num("subsec_millis", d.subsec_millis(), -999, 999),
+        num("subsec_micros", d.subsec_micros(), -999_999, 999_999),
+        num("subsec_nanos", d.subsec_nanos(), -999_999_999, 999_999_999),
+        anynum("as_millis", d.as_millis()),
+        anynum("as_micros", d.as_micros()),
+        anynum("as_nanos", d.as_nanos()),
+        anynum("as_hours", d.as_hours()),
+        anynum("as_mins", d.as_mins()),
+        num("signum", d.signum(), -1, 1),
+        num("is_zero", d.is_zero(), 0, 1),
+        num("is_positive", d.is_positive(), 0, 1),
+        num("is_negative", d.is_negative(), 0, 1),
+    ]
+}
+
+fn transitions<'t, I: Iterator<Item = jiff::tz::TimeZoneTransition<'t>>>(it: I) -> Vec<Trans> {
+    take_n(it, 300)
+        .into_iter()
+        .map(|t| Trans { ts: t.timestamp(), off: t.offset(), dst: t.dst().is_dst(), abbr: t.abbreviation().to_string() })
+        .collect()
+}
+
+fn extend(c: &mut Cat, pl: &Pools, instants: &P<Timestamp>, quick: bool) {
+    // =====================================================================
+    // civil::Weekday: wrapping arithmetic, exact modulo-7 oracle
+    // =====================================================================
+    add2(c, "Weekday::wrapping_add", &pl.weekdays, &pl.i64s, |w, n| ok(wd_pin(w.wrapping_add(*n), *w, *n as i128, false)));
+    add2(c, "Weekday::wrapping_sub", &pl.weekdays, &pl.i64s, |w, n| ok(wd_pin(w.wrapping_sub(*n), *w, *n as i128, true)));
+    weekday_ops!(c, "i8", &pl.weekdays, &pl.i8_all);
+    weekday_ops!(c, "i16", &pl.weekdays, &pl.i16s);
+    weekday_ops!(c, "i32", &pl.weekdays, &pl.i32s);
+    weekday_ops!(c, "i64", &pl.weekdays, &pl.i64s);
+    add2(c, "Weekday::since", &pl.weekdays, &pl.weekdays, |a, b| ok(num("days", a.since(*b), 0, 6)));
+    add2(c, "Weekday::until", &pl.weekdays, &pl.weekdays, |a, b| ok(num("days", a.until(*b), 0, 6)));
+    add1(c, "Weekday::next/previous/to_offsets", &pl.weekdays, |w| {
+        ok(vec![
+            num("next", wd_index(w.next()), 0, 6),
+            num("previous", wd_index(w.previous()), 0, 6),
+            num("to_monday_zero_offset", w.to_monday_zero_offset(), 0, 6),
+            num("to_monday_one_offset", w.to_monday_one_offset(), 1, 7),
+            num("to_sunday_zero_offset", w.to_sunday_zero_offset(), 0, 6),
+            num("to_sunday_one_offset", w.to_sunday_one_offset(), 1, 7),
+        ])
+    });
+    add1(c, "Weekday::cycle_forward/cycle_reverse", &pl.weekdays, |w| {
+        let mut v = take_n(w.cycle_forward(), 15);
+        v.extend(take_n(w.cycle_reverse(), 15));
+        ok(v)
+    });
+
+    // =====================================================================
+    // civil::ISOWeekDate <-> civil::Date (infallible, at both limits)
+    // =====================================================================
+    let iwds: P<ISOWeekDate> = {
+        let mut v: Vec<ISOWeekDate> = vec![ISOWeekDate::MIN, ISOWeekDate::MAX, ISOWeekDate::ZERO];
+        for y in [-9999i16, 9999, 9998, -9998, 2020, 2024, 0, 1] {
+            for w in [1i8, 2, 52, 53] {
+                for wd in WEEKDAYS {
+                    if let Ok(x) = ISOWeekDate::new(y, w, wd) {
+                        v.push(x);
+                    }
+                }
+            }
+        }
+        pd(v)
+    };
+    add1(c, "ISOWeekDate::from_date", &pl.dates, |d| ok(ISOWeekDate::from_date(*d)));
+    add1(c, "ISOWeekDate::from(Date)", &pl.dates, |d| ok(ISOWeekDate::from(*d)));
+    add1(c, "ISOWeekDate::from(DateTime)", &pl.dts_m, |d| ok(ISOWeekDate::from(*d)));
+    add1(c, "ISOWeekDate::from(Zoned)", &pl.zoneds_m, |z| ok((ISOWeekDate::from(z), ISOWeekDate::from(z.clone()))));
+    add1(c, "ISOWeekDate::date", &iwds, |x| ok(x.date()));
+    add1(c, "Date::from(ISOWeekDate)", &iwds, |x| ok(Date::from(*x)));
+    add1(c, "Date::from_iso_week_date", &iwds, |x| ok(Date::from_iso_week_date(*x)));
+    add1(c, "Date::iso_week_date", &pl.dates, |d| ok(d.iso_week_date()));
+    add1(c, "DateTime::iso_week_date", &pl.dts_m, |d| ok(d.iso_week_date()));
+    add1(c, "Zoned::iso_week_date", &pl.zoneds_m, |z| ok(z.clone().iso_week_date()));
+    add1(c, "ISOWeekDate::days_in_year/weeks_in_year/in_long_year", &iwds, |x| {
+        ok(vec![num("days_in_year", x.days_in_year(), 364, 371), num("weeks_in_year", x.weeks_in_year(), 52, 53), num("in_long_year", x.in_long_year(), 0, 1)])
+    });
+
+    // =====================================================================
+    // civil::Date
+    // =====================================================================
+    sat_entries!(c, "Date", &pl.dates, &pl.durs, |_a: &Date| Date::MIN, |_a: &Date| Date::MAX);
+    minus_entries!(c, "Date", &pl.dates);
+    add1(c, "Date::first_of_month", &pl.dates, |d| ok(d.first_of_month()));
+    add1(c, "Date::last_of_month", &pl.dates, |d| ok(d.last_of_month()));
+    add1(c, "Date::first_of_year", &pl.dates, |d| ok(d.first_of_year()));
+    add1(c, "Date::last_of_year", &pl.dates, |d| ok(d.last_of_year()));
+    add1(c, "Date::accessors", &pl.dates, |d| ok(date_fields(d)));
+    add2(c, "Date::to_datetime", &pl.dates, &pl.times, |d, t| ok((d.to_datetime(*t), t.to_datetime(*d))));
+    add2(c, "Date::until(datetime)", &pl.dates, &pl.dts_m, |a, b| a.until(*b));
+    add2(c, "Date::until(zoned)", &pl.dates, &pl.zoneds_m, |a, b| a.until(b));
+    add3(c, "Date::since(largest,zoned)", &pl.dates, &pl.zoneds_m, &pl.units, |a, b, u| a.since((*u, b)));
+    add3(c, "Date::since(smallest,largest,mode)", &pl.dates_s, &pl.dates_s, &pl.sls, |a, b, o: &SL| {
+        let mut d = DateDifference::new(*b).smallest(o.smallest).mode(o.mode);
+        if let Some(l) = o.largest {
+            d = d.largest(l);
+        }
+        a.since(d)
+    });
+
+    // =====================================================================
+    // civil::Time: wrapping (also the operators), saturating
+    // =====================================================================
+    add2(c, "Time::wrapping_add", &pl.times, &pl.durs, |t, x| with_dur!(x, |v| ok(t.wrapping_add(v))));
+    add2(c, "Time::wrapping_sub", &pl.times, &pl.durs, |t, x| with_dur!(x, |v| ok(t.wrapping_sub(v))));
+    add2(c, "Time::add(duration)", &pl.times, &pl.durs, |t, x| with_dur!(x, |v| ok(*t + v)));
+    add2(c, "Time::sub(duration)", &pl.times, &pl.durs, |t, x| with_dur!(x, |v| ok(*t - v)));
+    add2(c, "Time::add_assign(duration)", &pl.times, &pl.durs, |t, x| {
+        with_dur!(x, |v| {
+            let mut y = *t;
+            y += v;
+            ok(y)
+        })
+    });
+    add2(c, "Time::sub_assign(duration)", &pl.times, &pl.durs, |t, x| {
+        with_dur!(x, |v| {
+            let mut y = *t;
+            y -= v;
+            ok(y)
+        })
+    });
+    sat_entries!(c, "Time", &pl.times, &pl.durs, |_a: &Time| Time::MIN, |_a: &Time| Time::MAX);
+    minus_entries!(c, "Time", &pl.times);
+    add2(c, "Time::until(datetime)", &pl.times, &pl.dts_m, |a, b| a.until(*b));
+    add3(c, "Time::since(largest,zoned)", &pl.times, &pl.zoneds_m, &pl.units, |a, b, u| a.since((*u, b)));
+    add3(c, "Time::since(smallest,largest,mode)", &pl.times, &pl.times, &pl.sls, |a, b, o: &SL| {
+        let mut d = TimeDifference::new(*b).smallest(o.smallest).mode(o.mode);
+        if let Some(l) = o.largest {
+            d = d.largest(l);
+        }
+        a.since(d)
+    });
+    add2(c, "Time::round(unit)", &pl.times, &pl.units, |t, u| t.round(*u));
+    add3(c, "Time::round(unit,increment)", &pl.times, &pl.units, &pd(pools::INCS2.to_vec()), |t, u, i| t.round((*u, *i)));
+
+    // =====================================================================
+    // civil::DateTime
+    // =====================================================================
+    sat_entries!(c, "DateTime", &pl.dts, &pl.durs, |_a: &DateTime| DateTime::MIN, |_a: &DateTime| DateTime::MAX);
+    minus_entries!(c, "DateTime", &pl.dts_m);
+    add1(c, "DateTime::start_of_day", &pl.dts, |d| ok(d.start_of_day()));
+    add1(c, "DateTime::end_of_day", &pl.dts, |d| ok(d.end_of_day()));
+    add1(c, "DateTime::first_of_month", &pl.dts, |d| ok(d.first_of_month()));
+    add1(c, "DateTime::last_of_month", &pl.dts, |d| ok(d.last_of_month()));
+    add1(c, "DateTime::first_of_year", &pl.dts, |d| ok(d.first_of_year()));
+    add1(c, "DateTime::last_of_year", &pl.dts, |d| ok(d.last_of_year()));
+    add1(c, "Date::from(DateTime)", &pl.dts, |d| ok(Date::from(*d)));
+    add1(c, "Date::from(Zoned)", &pl.zoneds_m, |z| ok((Date::from(z), Date::from(z.clone()))));
+    add1(c, "Time::from(DateTime)", &pl.dts, |d| ok(Time::from(*d)));
+    add1(c, "Time::from(Zoned)", &pl.zoneds_m, |z| ok((Time::from(z), Time::from(z.clone()))));
+    add1(c, "DateTime::from(Date)", &pl.dates, |d| ok(DateTime::from(*d)));
+    add1(c, "DateTime::from(Zoned)", &pl.zoneds_m, |z| ok((DateTime::from(z), DateTime::from(z.clone()))));
+    add1(c, "DateTime::accessors", &pl.dts, |d| {
+        let mut v = date_fields(&d.date());
+        v.extend([
+            num("dt.year", d.year(), -9999, 9999),
+            num("dt.era_year", d.era_year().0, 1, 10_000),
+            num("dt.month", d.month(), 1, 12),
+            num("dt.day", d.day(), 1, 31),
+            num("dt.hour", d.hour(), 0, 23),
+            num("dt.minute", d.minute(), 0, 59),
+            num("dt.second", d.second(), 0, 59),
+            num("dt.millisecond", d.millisecond(), 0, 999),
+            num("dt.microsecond", d.microsecond(), 0, 999),
+            num("dt.nanosecond", d.nanosecond(), 0, 999),
+            num("dt.subsec_nanosecond", d.subsec_nanosecond(), 0, 999_999_999),
+            num("dt.weekday", wd_index(d.weekday()), 0, 6),
+            num("dt.day_of_year", d.day_of_year(), 1, 366),
+            num("dt.day_of_year_no_leap", d.day_of_year_no_leap().unwrap_or(0), 0, 365),
+            num("dt.days_in_month", d.days_in_month(), 28, 31),
+            num("dt.days_in_year", d.days_in_year(), 365, 366),
+            num("dt.in_leap_year", d.in_leap_year(), 0, 1),
+        ]);
+        ok(v)
+    });
+    add2(c, "DateTime::until(date)", &pl.dts_m, &pl.dates, |a, b| a.until(*b));
+    add3(c, "DateTime::since(largest,zoned)", &pl.dts_m, &pl.zoneds_m, &pl.units, |a, b, u| a.since((*u, b)));
+    add3(c, "DateTime::since(smallest,largest,mode)", &pl.dts_s, &pl.dts_s, &pl.sls, |a, b, o: &SL| {
+        let mut d = DateTimeDifference::new(*b).smallest(o.smallest).mode(o.mode);
+        if let Some(l) = o.largest {
+            d = d.largest(l);
+        }
+        a.since(d)
+    });
+    add2(c, "DateTime::round(unit)", &pl.dts, &pl.units, |d, u| d.round(*u));
+    add3(c, "DateTime::round(unit,increment)", &pl.dts_m, &pl.units, &pd(pools::INCS2.to_vec()), |d, u, i| d.round((*u, *i)));
+
+    // =====================================================================
+    // Timestamp
+    // =====================================================================
+    minus_entries!(c, "Timestamp", &pl.tss);
+    add1(c, "Timestamp::accessors", &pl.tss, |t| ok(ts_fields(t)));
+    add1(c, "Timestamp::as_duration", &pl.tss, |t| ok(t.as_duration()));
+    add1(c, "SystemTime::from(Timestamp)", &pl.tss, |t| ok(SystemTime::from(*t)));
+    add1(c, "SystemTime::from(Zoned)", &pl.zoneds_m, |z| ok(SystemTime::from(z.clone())));
+    add1(c, "Zoned::try_from(SystemTime)", &pl.systimes, |s| Zoned::try_from(*s).map(SysZoned));
+    add1(c, "Timestamp::from(Zoned)", &pl.zoneds_m, |z| ok((Timestamp::from(z), Timestamp::from(z.clone()))));
+    add2(c, "Timestamp::until(zoned)", &pl.tss, &pl.zoneds_m, |a, b| a.until(b));
+    add3(c, "Timestamp::since(largest,zoned)", &pl.tss, &pl.zoneds_m, &pl.units, |a, b, u| a.since((*u, b)));
+    add3(c, "Timestamp::since(smallest,largest,mode)", &pl.tss_s, &pl.tss_s, &pl.sls, |a, b, o: &SL| {
+        let mut d = TimestampDifference::new(*b).smallest(o.smallest).mode(o.mode);
+        if let Some(l) = o.largest {
+            d = d.largest(l);
+        }
+        a.since(d)
+    });
+    add2(c, "Timestamp::round(unit)", &pl.tss, &pl.units, |t, u| t.round(*u));
+    add3(c, "Timestamp::round(unit,increment)", &pl.tss, &pl.units, &pd(pools::INCS2.to_vec()), |t, u, i| t.round((*u, *i)));
+
+    // =====================================================================
+    // Zoned
+    // =====================================================================
+    add2(c, "Zoned::new", &pl.tss, &pl.zones, |t, tz| ok(Zoned::new(*t, tz.clone())));
+    sat_entries!(
+        c,
+        "Zoned",
+        &pl.zoneds,
+        &pl.durs,
+        |a: &Zoned| Zoned::new(Timestamp::MIN, a.time_zone().clone()),
+        |a: &Zoned| Zoned::new(Timestamp::MAX, a.time_zone().clone())
+    );
+    add2(c, "Zoned::sub(Zoned)", &pl.zoneds_m, &pl.zoneds_m, |a, b| ok(a - b));
+    add1(c, "Zoned::sub(Zoned,same-zone-pairs)", &pl.zoned_pairs, |ab| ok(&ab.0 - &ab.1));
+    add2(c, "Zoned::duration_until", &pl.zoneds_m, &pl.zoneds_m, |a, b| ok(a.duration_until(b)));
+    add2(c, "Zoned::duration_since", &pl.zoneds_m, &pl.zoneds_m, |a, b| ok(a.duration_since(b)));
+    add1(c, "Zoned::accessors", &pl.zoneds, |z| {
+        let mut v = date_fields(&z.date());
+        v.extend([
+            num("hour", z.hour(), 0, 23),
+            num("minute", z.minute(), 0, 59),
+            num("second", z.second(), 0, 59),
+            num("millisecond", z.millisecond(), 0, 999),
+            num("microsecond", z.microsecond(), 0, 999),
+            num("nanosecond", z.nanosecond(), 0, 999),
+            num("subsec_nanosecond", z.subsec_nanosecond(), 0, 999_999_999),
+            num("z.day_of_year_no_leap", z.day_of_year_no_leap().unwrap_or(0), 0, 365),
+            num("z.in_leap_year", z.in_leap_year(), 0, 1),
+            num("z.weekday", wd_index(z.weekday()), 0, 6),
+            num("z.era_year", z.era_year().0, 1, 10_000),
+            num("z.year", z.year(), -9999, 9999),
+            num("z.month", z.month(), 1, 12),
+            num("z.day", z.day(), 1, 31),
+            num("z.day_of_year", z.day_of_year(), 1, 366),
+            num("z.days_in_month", z.days_in_month(), 28, 31),
+            num("z.days_in_year", z.days_in_year(), 365, 366),
+        ]);
+        ok(v)
+    });
+    add3(c, "Zoned::since(smallest,largest,mode)", &pl.zoneds_s, &pl.zoneds_s, &pl.sls, |a, b, o: &SL| {
+        let mut d = ZonedDifference::new(b).smallest(o.smallest).mode(o.mode);
+        if let Some(l) = o.largest {
+            d = d.largest(l);
+        }
+        a.since(d)
+    });
+    add2(c, "Zoned::round(unit)", &pl.zoneds, &pl.units, |z, u| z.round(*u));
+    add3(c, "Zoned::round(unit,increment)", &pl.zoneds_m, &pl.units, &pd(pools::INCS2.to_vec()), |z, u, i| z.round((*u, *i)));
+    add3(c, "ZonedWith::build(month,day)", &pl.zoneds_s, &pl.i8s, &pl.i8s, |z, m, x| z.with().month(*m).day(*x).build());
+    add3(c, "ZonedWith::build(year,day_of_year)", &pl.zoneds_s, &pl.i16s, &pl.i16s, |z, y, x| z.with().year(*y).day_of_year(*x).build());
+    add3(c, "DateTimeWith::build(year,day_of_year)", &pl.dts_s, &pl.i16s, &pl.i16s, |d, y, x| d.with().year(*y).day_of_year(*x).build());
+
+    // =====================================================================
+    // Span
+    // =====================================================================
+    add1(c, "Span::abs", &pl.spans, |s| ok(s.abs()));
+    add1(c, "Span::negate", &pl.spans, |s| ok(s.negate()));
+    add1(c, "Span::neg", &pl.spans, |s| ok(-*s));
+    add1(c, "Span::from(SpanFieldwise)", &pl.spans, |s| ok((Span::from(s.fieldwise()), Span::from(-s.fieldwise()))));
+    {
+        // the panicking setters, on the inputs the documentation allows
+        let mut v: Vec<(Unit, i64)> = vec![];
+        for u in pools::UNITS {
+            let l = SPAN_LIMITS[unit_index(u)];
+            for i in 0..pl.i64s.len() {
+                let n = *pl.i64s.val(i);
+                if n > l || n < -l {
+                    EXCLUDED_DOC_PANIC_INPUTS.fetch_add(pl.span_bases.len() as u64, Ordering::Relaxed);
+                } else {
+                    v.push((u, n));
+                }
+            }
+        }
+        add2(c, "Span::<unit>s(within-limits)", &pl.span_bases, &pd(v), |s, un| ok(span_set(*s, un.0, un.1)));
+    }
+    add1(c, "ToSpan(i8,within-limits)", &to_span_pool(&pl.i8_all), |t| ok(to_span_i8(t.0, t.1, t.2)));
+    add1(c, "ToSpan(i16,within-limits)", &to_span_pool(&pl.i16s), |t| ok(to_span_i16(t.0, t.1, t.2)));
+    add1(c, "ToSpan(i32,within-limits)", &to_span_pool(&pl.i32s), |t| ok(to_span_i32(t.0, t.1, t.2)));
+    add1(c, "ToSpan(i64,within-limits)", &to_span_pool(&pl.i64s), |t| ok(to_span_i64(t.0, t.1, t.2)));
+    {
+        // an absolute duration as the operand, with a relative datetime
+        let abs: P<Dur> = pick(&pl.durs, |_, d| !matches!(d, Dur::Span(_)));
+        let rels3 = pick(&pl.rels, |_, r| matches!(r, Rel::Date(_) | Rel::DateTime(_) | Rel::Zoned(_)));
+        macro_rules! with_abs_rel {
+            ($a:expr, $d:expr, $r:expr, $m:ident) => {
+                match ($d, $r) {
+                    (Dur::S(v), Rel::Date(x)) => $a.$m((*v, *x)),
+                    (Dur::S(v), Rel::DateTime(x)) => $a.$m((*v, *x)),
+                    (Dur::S(v), Rel::Zoned(x)) => $a.$m((*v, x)),
+                    (Dur::U(v), Rel::Date(x)) => $a.$m((*v, *x)),
+                    (Dur::U(v), Rel::DateTime(x)) => $a.$m((*v, *x)),
+                    (Dur::U(v), Rel::Zoned(x)) => $a.$m((*v, x)),
+                    _ => unreachable!(),
+                }
+            };
+        }
+        add3(c, "Span::checked_add(duration,relative)", &pl.spans_s, &abs, &rels3, |a, d, r| with_abs_rel!(a, d, r, checked_add));
+        add3(c, "Span::checked_sub(duration,relative)", &pl.spans_s, &abs, &rels3, |a, d, r| with_abs_rel!(a, d, r, checked_sub));
+    }
+    {
+        // largest AND increment together (the two existing `round` entries vary
+        // one of them at a time)
+        let mut v = vec![];
+        for smallest in pools::UNITS {
+            for largest in pools::UNITS {
+                for inc in [1i64, 2, 7, 24, 30, 1000] {
+                    v.push((smallest, largest, inc));
+                }
+            }
+        }
+        let sli = p(v, |t| format!("smallest={:?}/largest={:?}/inc={}/", t.0, t.1, t.2));
+        add3(c, "Span::round(smallest,largest,increment)", &pl.spans_s, &pl.rels, &sli, |a, r, o| {
+            let opt = SpanRound::new().smallest(o.0).largest(o.1).increment(o.2);
+            with_rel!(r, a.round(opt), |x| a.round(opt.relative(x)))
+        });
+    }
+
+    // =====================================================================
+    // SignedDuration
+    // =====================================================================
+    {
+        // `new`: "panics when the excess that carries over to the number of
+        // whole seconds overflows i64" - every other input
+        let mut v: Vec<(i64, i32)> = vec![];
+        for i in 0..pl.i64s.len() {
+            for j in 0..pl.i32s.len() {
+                let (s, n) = (*pl.i64s.val(i), *pl.i32s.val(j));
+                let carried = s as i128 + (n / 1_000_000_000) as i128;
+                if n.unsigned_abs() >= 1_000_000_000 && (carried < i64::MIN as i128 || carried > i64::MAX as i128) {
+                    EXCLUDED_DOC_PANIC_INPUTS.fetch_add(1, Ordering::Relaxed);
+                } else {
+                    v.push((s, n));
+                }
+            }
+        }
+        add1(c, "SignedDuration::new(no-carry-overflow)", &pd(v), |x| ok(SignedDuration::new(x.0, x.1)));
+    }
+    add1(c, "SignedDuration::from_secs", &pl.i64s, |x| ok(SignedDuration::from_secs(*x)));
+    add1(c, "SignedDuration::from_millis", &pl.i64s, |x| ok(SignedDuration::from_millis(*x)));
+    add1(c, "SignedDuration::from_micros", &pl.i64s, |x| ok(SignedDuration::from_micros(*x)));
+    add1(c, "SignedDuration::from_nanos", &pl.i64s, |x| ok(SignedDuration::from_nanos(*x)));
+    {
+        let within = |per: i64| {
+            pick(&pl.i64s, move |_, n| {
+                let inside = *n >= i64::MIN / per && *n <= i64::MAX / per;
+                if !inside {
+                    EXCLUDED_DOC_PANIC_INPUTS.fetch_add(1, Ordering::Relaxed);
+                }
+                inside
+            })
+        };
+        add1(c, "SignedDuration::from_hours(within-limits)", &within(3_600), |x| ok(SignedDuration::from_hours(*x)));
+        add1(c, "SignedDuration::from_mins(within-limits)", &within(60), |x| ok(SignedDuration::from_mins(*x)));
+    }
+    let (sd_min, sd_max) = (sdur_ns(SignedDuration::MIN), sdur_ns(SignedDuration::MAX));
+    let clamp = move |n: i128| sdur_from_ns(n.clamp(sd_min, sd_max)).unwrap();
+    add2(c, "SignedDuration::saturating_add", &pl.sdurs, &pl.sdurs, move |a, b| {
+        ok(Pinned { got: a.saturating_add(*b), want: clamp(sdur_ns(*a) + sdur_ns(*b)), tag: "not-the-exact-sum-nor-the-limit" })
+    });
+    add2(c, "SignedDuration::saturating_sub", &pl.sdurs, &pl.sdurs, move |a, b| {
+        ok(Pinned { got: a.saturating_sub(*b), want: clamp(sdur_ns(*a) - sdur_ns(*b)), tag: "not-the-exact-difference-nor-the-limit" })
+    });
+    add2(c, "SignedDuration::saturating_mul", &pl.sdurs, &pl.i32s, move |a, b| {
+        ok(Pinned { got: a.saturating_mul(*b), want: clamp(sdur_ns(*a) * *b as i128), tag: "not-the-exact-product-nor-the-limit" })
+    });
+    {
+        let no_min = pick(&pl.sdurs, |_, d| {
+            if d.as_secs() == i64::MIN {
+                EXCLUDED_DOC_PANIC_INPUTS.fetch_add(1, Ordering::Relaxed);
+            }
+            d.as_secs() != i64::MIN
+        });
+        add1(c, "SignedDuration::abs(secs!=i64::MIN)", &no_min, |a| ok(a.abs()));
+    }
+    add1(c, "SignedDuration::unsigned_abs", &pl.sdurs, |a| ok(a.unsigned_abs()));
+    add1(c, "SignedDuration::accessors", &pl.sdurs, |a| ok(sdur_fields(a)));
+    add1(c, "SignedDuration::as_secs_f64/as_millis_f64", &pl.sdurs, |a| ok((F(a.as_secs_f64()), F(a.as_millis_f64()))));
+    add2(c, "SignedDuration::div_duration_f64", &pl.sdurs, &pl.sdurs, |a, b| ok(F(a.div_duration_f64(*b))));
+    add1(c, "SignedDuration::from(Offset)", &pl.offsets, |o| ok(SignedDuration::from(*o)));
+    add2(c, "SignedDuration::round(unit)", &pl.sdurs, &pl.units, |a, u| a.round(*u));
+    add3(c, "SignedDuration::round(unit,increment)", &pl.sdurs, &pl.units, &pd(pools::INCS2.to_vec()), |a, u, i| a.round((*u, *i)));
+
+    // =====================================================================
+    // tz::Offset, tz::OffsetConflict
+    // =====================================================================
+    add2(c, "Offset::sub(Offset)", &pl.offsets, &pl.offsets, |a, b| ok(*a - *b));
+    add1(c, "Offset::neg", &pl.offsets, |a| ok(-*a));
+    add1(c, "Offset::to_time_zone", &pl.offsets, |a| a.to_time_zone().to_fixed_offset());
+    add1(c, "Offset::accessors", &pl.offsets, |a| {
+        ok(vec![
+            num("seconds", a.seconds(), -93_599, 93_599),
+            num("signum", a.signum(), -1, 1),
+            num("is_positive", a.is_positive(), 0, 1),
+            num("is_negative", a.is_negative(), 0, 1),
+            num("is_zero", a.is_zero(), 0, 1),
+        ])
+    });
+    add2(c, "Offset::round(unit)", &pl.offsets, &pl.units, |a, u| a.round(*u));
+    add3(c, "Offset::round(unit,increment)", &pl.offsets, &pl.units, &pd(pools::INCS2.to_vec()), |a, u, i| a.round((*u, *i)));
+    add4(c, "OffsetConflict::resolve_with", &pl.conflicts, &head(&pl.dts_m, 116), &pl.offsets, &pl.zones, |cd, dt, o, tz| {
+        // the closure of the documentation's example: equal up to rounding to the minute
+        cd.0.resolve_with(*dt, *o, tz.clone(), |parsed, candidate| {
+            parsed == candidate || candidate.round(Unit::Minute).map_or(false, |c| parsed == c)
+        })
+        .and_then(|az| az.disambiguate(cd.1.to()))
+    });
+
+    // =====================================================================
+    // tz::TimeZone: transition iterators from every instant (both limits)
+    // =====================================================================
+    add2(c, "TimeZone::following", &pl.zones, instants, |tz, t| ok(transitions(tz.following(*t))));
+    add2(c, "TimeZone::preceding", &pl.zones, instants, |tz, t| ok(transitions(tz.preceding(*t))));
+    add2(c, "TimeZone::to_ambiguous_timestamp", &pl.zones, &pl.dts, |tz: &TimeZone, d| {
+        let a = tz.to_ambiguous_timestamp(*d);
+        let (k, x, y) = match a.offset() {
+            jiff::tz::AmbiguousOffset::Unambiguous { offset } => (0, offset, offset),
+            jiff::tz::AmbiguousOffset::Gap { before, after } => (1, before, after),
+            jiff::tz::AmbiguousOffset::Fold { before, after } => (2, before, after),
+        };
+        ok((vec![num("kind", k, 0, 2), num("is_ambiguous", a.is_ambiguous(), 0, 1)], (a.datetime(), (x, y))))
+    });
+
+    // =====================================================================
+    // the `days_are_24_hours()` builder methods of the span option types
+    // =====================================================================
+    add2(c, "SpanArithmetic::days_are_24_hours", &pl.spans_s, &pl.spans_s, |a, b| {
+        a.checked_add(jiff::SpanArithmetic::from(*b).days_are_24_hours()).and_then(|x| a.checked_sub(jiff::SpanArithmetic::from(*b).days_are_24_hours()).map(|y| (x, y)))
+    });
+    add2(c, "SpanCompare::days_are_24_hours", &pl.spans_s, &pl.spans_s, |a, b| a.compare(jiff::SpanCompare::from(*b).days_are_24_hours()));
+    add2(c, "SpanTotal::days_are_24_hours", &pl.spans, &pl.units, |a, u| a.total(jiff::SpanTotal::from(*u).days_are_24_hours()));
+    add2(c, "SpanRound::days_are_24_hours", &pl.spans_s, &pl.ros, |a, o| {
+        a.round(SpanRound::new().smallest(o.unit).increment(o.inc).mode(o.mode).days_are_24_hours())
+    });
+
+    // =====================================================================
+    // every zone of the bundled database at the limits of the instant and
+    // civil ranges (whether a limit is reachable depends on the zone's first
+    // and last offset)
+    // =====================================================================
+    let lim_dts: P<DateTime> = {
+        let d = |y: i16, m: i8, dd: i8, h: i8, mi: i8, s: i8, n: i32| DateTime::new(y, m, dd, h, mi, s, n).unwrap();
+        let mut v = vec![
+            DateTime::MIN,
+            d(-9999, 1, 1, 0, 0, 0, 1),
+            d(-9999, 1, 1, 23, 59, 59, 999_999_999),
+            d(-9999, 1, 2, 1, 59, 59, 0),
+            d(-9999, 1, 3, 0, 0, 0, 0),
+            DateTime::MAX,
+            d(9999, 12, 31, 0, 0, 0, 0),
+            d(9999, 12, 30, 22, 0, 0, 999_999_999),
+            d(9999, 12, 29, 23, 59, 59, 999_999_999),
+            d(1970, 1, 1, 0, 0, 0, 0),
+            d(2024, 3, 10, 2, 30, 0, 0),
+        ];
+        if !quick {
+            // the first and last three civil days at every time of the pool
+            for (y, m, dd) in [(-9999i16, 1i8, 1i8), (-9999, 1, 2), (-9999, 1, 3), (9999, 12, 29), (9999, 12, 30), (9999, 12, 31)] {
+                for i in 0..pl.times.len() {
+                    let x = Date::new(y, m, dd).unwrap().to_datetime(*pl.times.val(i));
+                    if !v.contains(&x) {
+                        v.push(x);
+                    }
+                }
+            }
+        }
+        pd(v)
+    };
+    let lim_tss: P<Timestamp> = {
+        let (lo, hi) = (Timestamp::MIN.as_nanosecond(), Timestamp::MAX.as_nanosecond());
+        let day = 86_400 * NS;
+        let mut v: Vec<i128> = vec![lo, lo + 1, lo + day, lo + 2 * day, hi, hi - 1, hi - day, hi - 2 * day, 0, 1_710_054_000 * NS];
+        if !quick {
+            // every whole hour of the first and last 52 hours (every possible
+            // offset moves the civil day boundary somewhere in there), and the
+            // timestamp pool
+            for h in 0..=52i128 {
+                v.push(lo + h * 3_600 * NS);
+                v.push(hi - h * 3_600 * NS);
+            }
+            for i in 0..pl.tss.len() {
+                v.push(pl.tss.val(i).as_nanosecond());
+            }
+            let mut seen = std::collections::BTreeSet::new();
+            v.retain(|x| seen.insert(*x));
+        }
+        p(v.into_iter().map(|n| Timestamp::from_nanosecond(n).unwrap()).collect(), pools::ts_label)
+    };
+    let az = &pl.all_zones;
+    add3(c, "AmbiguousTimestamp::disambiguate(all-zones)", az, &lim_dts, &pl.disambs, |tz, d, m| tz.to_ambiguous_timestamp(*d).disambiguate(m.to()));
+    add2(c, "TimeZone::to_zoned(all-zones)", az, &lim_dts, |tz, d| tz.to_zoned(*d));
+    add2(c, "TimeZone::to_timestamp(all-zones)", az, &lim_dts, |tz, d| tz.to_timestamp(*d));
+    add2(c, "TimeZone::to_datetime(all-zones)", az, &lim_tss, |tz, t| ok((tz.to_datetime(*t), tz.to_offset(*t))));
+    add2(c, "Zoned::new(all-zones)", az, &lim_tss, |tz, t| ok(Zoned::new(*t, tz.clone())));
+    add2(c, "TimeZone::following(all-zones)", az, &lim_tss, |tz, t| ok(transitions(tz.following(*t))));
+    add2(c, "TimeZone::preceding(all-zones)", az, &lim_tss, |tz, t| ok(transitions(tz.preceding(*t))));
+    add2(c, "Zoned::start_of_day(all-zones)", az, &lim_tss, |tz, t| Zoned::new(*t, tz.clone()).start_of_day());
+    add2(c, "Zoned::end_of_day(all-zones)", az, &lim_tss, |tz, t| Zoned::new(*t, tz.clone()).end_of_day());
+    add2(c, "Zoned::tomorrow(all-zones)", az, &lim_tss, |tz, t| Zoned::new(*t, tz.clone()).tomorrow());
+    add2(c, "Zoned::yesterday(all-zones)", az, &lim_tss, |tz, t| Zoned::new(*t, tz.clone()).yesterday());
+    add2(c, "Zoned::first_of_year(all-zones)", az, &lim_tss, |tz, t| Zoned::new(*t, tz.clone()).first_of_year());
+    add2(c, "Zoned::last_of_year(all-zones)", az, &lim_tss, |tz, t| Zoned::new(*t, tz.clone()).last_of_year());
+    add2(c, "Zoned::first_of_month(all-zones)", az, &lim_tss, |tz, t| Zoned::new(*t, tz.clone()).first_of_month());
+    add2(c, "Zoned::last_of_month(all-zones)", az, &lim_tss, |tz, t| Zoned::new(*t, tz.clone()).last_of_month());
+    add3(c, "Zoned::round(all-zones)", az, &lim_tss, &pl.units, |tz, t, u| Zoned::new(*t, tz.clone()).round(*u));
+    {
+        let steps: P<Dur> = pick(&pl.durs, |l, _| {
+            ["span(1d)", "span(-1d)", "span(1mo)", "span(-1mo)", "span(1y)", "span(-1y)", "span(1h)", "span(-1h)", "span(1ns)", "span(-1ns)", "sdur(86400,0)", "sdur(-86400,0)", "udur(0,1)"].contains(&l)
+        });
+        add3(c, "Zoned::checked_add(all-zones)", az, &lim_tss, &steps, |tz, t, x| with_dur!(x, |v| Zoned::new(*t, tz.clone()).checked_add(v)));
+        add3(c, "Zoned::checked_sub(all-zones)", az, &lim_tss, &steps, |tz, t, x| with_dur!(x, |v| Zoned::new(*t, tz.clone()).checked_sub(v)));
+    }
+    {
+        let few: P<Unit> = pd(vec![Unit::Year, Unit::Month, Unit::Day, Unit::Hour, Unit::Nanosecond]);
+        // from each limit instant to the opposite limit and to its neighbours
+        let ends = head(&lim_tss, 10);
+        add4(c, "Zoned::until(largest,all-zones)", az, &ends, &ends, &few, |tz, a, b, u| {
+            Zoned::new(*a, tz.clone()).until((*u, &Zoned::new(*b, tz.clone())))
+        });
+    }
+
+    // =====================================================================
+    // Display / Debug of every type at its limits (printing must not panic)
+    // =====================================================================
+    macro_rules! fmt_entry {
+        ($name:literal, $pool:expr) => {
+            add1(c, concat!($name, "::fmt"), $pool, |x| ok(format!("{} | {:?} | {:#} | {:#?} | {:.3} | {:.9} | {:>40} | {:.0}", x, x, x, x, x, x, x, x)));
+        };
+    }
+    fmt_entry!("Date", &pl.dates);
+    fmt_entry!("Time", &pl.times);
+    fmt_entry!("DateTime", &pl.dts);
+    fmt_entry!("Timestamp", &pl.tss);
+    fmt_entry!("Zoned", &pl.zoneds);
+    fmt_entry!("Span", &pl.spans);
+    fmt_entry!("SignedDuration", &pl.sdurs);
+    fmt_entry!("Offset", &pl.offsets);
+    add1(c, "ISOWeekDate::fmt", &iwds, |x| ok(format!("{:?} | {:#?}", x, x)));
+    add1(c, "TimeZone::fmt", &pl.zones, |x| ok(format!("{:?}", x).len().to_string()));
+    add2(c, "Timestamp::display_with_offset", &pl.tss, &pl.offsets, |t, o| {
+        ok(format!("{} | {:.3} | {:?}", t.display_with_offset(*o), t.display_with_offset(*o), t.display_with_offset(*o)))
+    });
+    let _ = (UDur::ZERO, NS);
+}
+
+/// Public API that can be handed an out-of-range / overflowing value and is
+/// NOT in the catalogue because its documentation says it panics then (or
+/// because it is a parser, which other properties own): name -> reason.
+pub fn excluded() -> Vec<(String, String)> {
+    let mut v: Vec<(String, String)> = vec![];
+    let mut ex = |n: &str, why: &str| v.push((n.to_string(), why.to_string()));
+    for ty in ["Date", "DateTime", "Timestamp", "Zoned", "Offset"] {
+        for op in ["add", "sub", "add_assign", "sub_assign"] {
+            for rhs in ["Span", "SignedDuration", "UnsignedDuration"] {
+                ex(&format!("{}::{}({})", ty, op, rhs), "operator documented: uses checked arithmetic and panics on overflow");
+            }
+        }
+    }
+    for c in ["Date::constant", "Time::constant", "DateTime::constant", "Timestamp::constant", "Offset::constant"] {
+        ex(c, "const constructor documented to panic on out-of-range input");
+    }
+    for c in ["civil::date", "civil::time", "civil::datetime", "tz::offset", "Date::at", "Time::on"] {
+        ex(c, "const convenience constructor documented to panic on out-of-range input");
+    }
+    for u in ["years", "months", "weeks", "days", "hours", "minutes", "seconds", "milliseconds", "microseconds", "nanoseconds"] {
+        ex(&format!("Span::{}", u), "documented to panic outside the unit's limit (inside: entry Span::<unit>s(within-limits))");
+    }
+    ex("ToSpan", "documented to panic outside the unit's limit (inside: entries ToSpan(iN,within-limits))");
+    ex("Span::mul(i64)", "operator documented: panics on overflow");
+    ex("i64::mul(Span)", "operator documented: panics on overflow");
+    ex("SignedDuration::new", "documented to panic when the nanosecond carry overflows i64 (otherwise: entry SignedDuration::new(no-carry-overflow))");
+    ex("SignedDuration::from_hours", "documented to panic outside i64 seconds (inside: entry ...(within-limits))");
+    ex("SignedDuration::from_mins", "documented to panic outside i64 seconds (inside: entry ...(within-limits))");
+    ex("SignedDuration::abs", "documented to panic when the seconds are i64::MIN (otherwise: entry SignedDuration::abs(secs!=i64::MIN))");
+    for f in ["from_secs_f64", "from_secs_f32", "mul_f64", "mul_f32", "div_f64", "div_f32"] {
+        ex(&format!("SignedDuration::{}", f), "documented to panic on overflow / non-finite input");
+    }
+    for op in ["neg", "add(SignedDuration)", "sub(SignedDuration)", "add_assign(SignedDuration)", "sub_assign(SignedDuration)", "mul(i32)", "mul_assign(i32)", "div(i32)", "div_assign(i32)", "sum"] {
+        ex(&format!("SignedDuration::{}", op), "operator mirroring std::time::Duration: explicit `expect(\"overflow ...\")`");
+    }
+    ex("i32::mul(SignedDuration)", "operator mirroring std::time::Duration: explicit `expect(\"overflow ...\")`");
+    for f in ["strptime", "strftime", "from_str", "deserialize"] {
+        ex(&format!("*::{}", f), "parsers / printers: properties C09, C15, C16");
+    }
+    ex("TimeZone::iana_name", "accessor returning Option<&str>: no ranged input");
+    for f in ["TimeZone::get", "TimeZone::posix", "TimeZone::tzif", "TimeZone::try_system", "TimeZone::system", "Timestamp::now", "Zoned::now"] {
+        ex(f, "takes text / bytes / the environment, not a ranged value: properties C03, C04, C17, C19");
+    }
+    v
+}
+
+/// API items exercised inside an entry of a different name: item -> entry
+pub const ALSO_COVERED: &[(&str, &str)] = &[
+    ("Time::add(Span)", "Time::add(duration)"),
+    ("Time::add(SignedDuration)", "Time::add(duration)"),
+    ("Time::add(UnsignedDuration)", "Time::add(duration)"),
+    ("Time::sub(Span)", "Time::sub(duration)"),
+    ("Time::sub(SignedDuration)", "Time::sub(duration)"),
+    ("Time::sub(UnsignedDuration)", "Time::sub(duration)"),
+    ("Time::add_assign(Span)", "Time::add_assign(duration)"),
+    ("Time::add_assign(SignedDuration)", "Time::add_assign(duration)"),
+    ("Time::add_assign(UnsignedDuration)", "Time::add_assign(duration)"),
+    ("Time::sub_assign(Span)", "Time::sub_assign(duration)"),
+    ("Time::sub_assign(SignedDuration)", "Time::sub_assign(duration)"),
+    ("Time::sub_assign(UnsignedDuration)", "Time::sub_assign(duration)"),
+    ("Date::day_of_year_no_leap", "Date::accessors"),
+    ("DateTime::day_of_year_no_leap", "DateTime::accessors"),
+    ("Zoned::day_of_year_no_leap", "Zoned::accessors"),
+    ("OffsetConflict::resolve_with", "OffsetConflict::resolve_with"),
+    ("DateWith::build", "DateWith::build(year)"),
+    ("TimeWith::build", "TimeWith::build(hour)"),
+    ("DateTimeWith::build", "DateTimeWith::build(year)"),
+    ("ZonedWith::build", "ZonedWith::build(year)"),
+    ("Zoned::sub(Zoned)", "Zoned::sub(Zoned)"),
+    ("SpanFieldwise::neg", "Span::from(SpanFieldwise)"),
+];
